@@ -107,6 +107,27 @@ func unwrap(v interface{}) interface{} {
 // PrepareQuery checks that the given selectionSet matches the schema typ, and
 // parses the args in selectionSet
 func PrepareQuery(ctx context.Context, typ Type, selectionSet *SelectionSet) error {
+	return prepareQuery(ctx, typ, selectionSet, make(map[preparedKey]struct{}))
+}
+
+// preparedKey identifies a selection set that has been checked against a type.
+type preparedKey struct {
+	typ          Type
+	selectionSet *SelectionSet
+}
+
+// prepareQuery implements PrepareQuery. A fragment that is spread several
+// times is checked against a type only once, which keeps the work linear in
+// the size of the query instead of exponential in the depth of nested spreads.
+func prepareQuery(ctx context.Context, typ Type, selectionSet *SelectionSet, prepared map[preparedKey]struct{}) error {
+	if selectionSet != nil {
+		key := preparedKey{typ: typ, selectionSet: selectionSet}
+		if _, ok := prepared[key]; ok {
+			return nil
+		}
+		prepared[key] = struct{}{}
+	}
+
 	switch typ := typ.(type) {
 	case *Scalar:
 		if selectionSet != nil {
@@ -128,7 +149,7 @@ func PrepareQuery(ctx context.Context, typ Type, selectionSet *SelectionSet) err
 				if fragment.On != typString {
 					continue
 				}
-				if err := PrepareQuery(ctx, graphqlTyp, fragment.SelectionSet); err != nil {
+				if err := prepareQuery(ctx, graphqlTyp, fragment.SelectionSet, prepared); err != nil {
 					return err
 				}
 			}
@@ -181,22 +202,22 @@ func PrepareQuery(ctx context.Context, typ Type, selectionSet *SelectionSet) err
 
 			selection.ParentType = typ.Name
 
-			if err := PrepareQuery(ctx, field.Type, selection.SelectionSet); err != nil {
+			if err := prepareQuery(ctx, field.Type, selection.SelectionSet, prepared); err != nil {
 				return err
 			}
 		}
 		for _, fragment := range selectionSet.Fragments {
-			if err := PrepareQuery(ctx, typ, fragment.SelectionSet); err != nil {
+			if err := prepareQuery(ctx, typ, fragment.SelectionSet, prepared); err != nil {
 				return err
 			}
 		}
 		return nil
 
 	case *List:
-		return PrepareQuery(ctx, typ.Type, selectionSet)
+		return prepareQuery(ctx, typ.Type, selectionSet, prepared)
 
 	case *NonNull:
-		return PrepareQuery(ctx, typ.Type, selectionSet)
+		return prepareQuery(ctx, typ.Type, selectionSet, prepared)
 
 	default:
 		panic("unknown type kind")
